@@ -234,6 +234,12 @@ func Faulty(b bpv7.Bundle, m uint64, mode string, k int, next ...bpv7.Bundle) (r
 				switch {
 				case n < k:
 					reply = msgs.NewDataAcknowledgementMessage(s.Flags, s.TransferId, uint64(acked))
+				case mode == "stall":
+					// the peer stops reading altogether: the sender blocks in the middle of the transfer
+					if n == k {
+						<-stop
+						return
+					}
 				case mode == "silent":
 				case len(mode) > 6 && mode[:6] == "refuse":
 					if n == k {
